@@ -18,6 +18,9 @@ pub struct Search {
     pub timeout_s: u64,
 }
 
+/// Findings re-observed by a property-specific run outside the BFS (registered before `run_searches`).
+pub static EXTRA_REOBSERVED: std::sync::Mutex<Vec<(String, String)>> = std::sync::Mutex::new(Vec::new());
+
 pub struct Outcome {
     pub exit: i32,
 }
@@ -139,8 +142,11 @@ pub fn run_searches(property: &str, tier: &str, level: &str, searches: Vec<Searc
     }
     // listed findings of this property that this run did not reach (smaller tier, or the hazard fired without
     // the engine deviating on the explored histories): still reported, and said to be not re-observed
+    let extra = EXTRA_REOBSERVED.lock().map(|g| g.clone()).unwrap_or_default();
     for (id, text) in &texts {
-        if !known.contains_key(id) {
+        if let Some((_, w)) = extra.iter().find(|(x, _)| x == id) {
+            println!("KNOWN-FINDING: property={property} {id} {text} [re-observed: {w}]");
+        } else if !known.contains_key(id) {
             println!("KNOWN-FINDING: property={property} {id} {text} [listed; not re-observed within the bounds of this run]");
         }
     }
